@@ -5,6 +5,7 @@ package home
 import (
 	"context"
 	"encoding/hex"
+	"errors"
 	"fmt"
 	"net/http"
 	"net/netip"
@@ -93,12 +94,22 @@ func verifC11Step(format string, args ...any) {
 // up to the web module is created while no user exists and firstRun is true,
 // then the steps of handleInstallConfigure follow (user added, modules
 // started, control handlers registered).  It must be called once per process.
+// ErrVerifC11StartRefused: the start-up sequence stops with a fatal error.
+var ErrVerifC11StartRefused = errors.New("start-up refused")
+
 func VerifC11Setup(dir, mode string) (info *VerifC11Info, err error) {
 	defer func() {
 		if r := recover(); r != nil {
 			err = fmt.Errorf("panic during set-up: %v\n%s", r, debug.Stack())
 		}
 	}()
+
+	// "boot-broken-sessions": as "boot", but the session store cannot be
+	// opened (a directory sits in its place).
+	brokenSessions := mode == "boot-broken-sessions"
+	if brokenSessions {
+		mode = "boot"
+	}
 
 	if mode != "boot" && mode != "install" {
 		return nil, fmt.Errorf("bad mode %q", mode)
@@ -207,13 +218,25 @@ func VerifC11Setup(dir, mode string) (info *VerifC11Info, err error) {
 
 	GLMode = false
 
-	// Init auth module.
-	globalContext.auth, err = initUsers()
-	if err != nil {
-		return nil, fmt.Errorf("initUsers: %w", err)
+	if brokenSessions {
+		err = os.MkdirAll(filepath.Join(dataDir, "sessions.db"), 0o755)
+		if err != nil {
+			return nil, err
+		}
 	}
 
-	verifC11Step("initUsers (users: %d)", len(globalContext.auth.usersList()))
+	// Init auth module.  run() treats an error as fatal and otherwise goes on
+	// with whatever initUsers returned.
+	globalContext.auth, err = initUsers()
+	if err != nil {
+		return nil, fmt.Errorf("%w: initUsers: %w", ErrVerifC11StartRefused, err)
+	}
+
+	if globalContext.auth != nil {
+		verifC11Step("initUsers (users: %d)", len(globalContext.auth.usersList()))
+	} else {
+		verifC11Step("initUsers returned no auth module and no error")
+	}
 
 	clientFS := fstest.MapFS{
 		"build/static/index.html":    {Data: []byte("<html>dashboard</html>")},
